@@ -117,6 +117,23 @@ def _run_subcheck(sc, rec, tier, seed, shard, nshards, t_end):
     import hypothesis
     from hypothesis import given, settings, HealthCheck, Phase, Verbosity
     n = max(1, n_total // nshards)
+    if sc.machine is not None:
+        from hypothesis.stateful import run_state_machine_as_test
+        Machine = sc.machine(rec, tier)
+        Machine.failure = None
+        phases = [Phase.generate] + ([Phase.shrink] if sc.shrink else [])
+        sett = settings(max_examples=n, stateful_step_count=sc.steps[tier], database=None, deadline=None, derandomize=False,
+                        report_multiple_bugs=False, print_blob=False, phases=phases, verbosity=Verbosity.quiet,
+                        suppress_health_check=list(HealthCheck))
+        try:
+            run_state_machine_as_test(hypothesis.seed(_mix(seed, sc.name, shard))(Machine), settings=sett)
+        except Violation as v:
+            rec.frozen = True
+            if Machine.failure is None:
+                raise HarnessError("stateful machine raised a Violation without recording its trace")
+            trace, v2, tags = Machine.failure
+            return ({"trace": trace}, v2, tags)
+        return None
     phases = [Phase.generate] + ([Phase.shrink] if sc.shrink else [])
     sett = settings(max_examples=n, database=None, deadline=None, derandomize=False,
                     report_multiple_bugs=False, print_blob=False, phases=phases, verbosity=Verbosity.quiet,
